@@ -145,6 +145,10 @@ def render_model(spec: Any) -> str:
 
     for inv in spec["parent_invs"]:
         lines.append(f'@invariant(lambda self: {inv}, "Invariant {next(counter)}.")')
+    if spec.get("child_invs") is not None:
+        # a concrete class with descendants needs the model type in JSON (else the
+        # jsonschema generator asserts: a known finding of C02)
+        lines.append("@serialization(with_model_type=True)")
     lines += [
         "class Parent(DBC):",
         '    """Represent the parent."""',
